@@ -1,3 +1,50 @@
-From Coq Require Import List.
-Theorem C16_placeholder : True. Proof. exact I. Qed.
-Print Assumptions C16_placeholder.
+(* C16 — region-graph constructions are valid
+   Property theorems only: each is closed by `exact <lemma>`; proofs live in the imported files. *)
+From Coq Require Import List ZArith QArith Qcanon Ring_theory Field_theory Permutation Sorted.
+Import ListNotations.
+From CK Require Import Base.
+From CK Require Import Scalar.
+From CK Require Import Tensor.
+From CK Require Import Pexpr.
+From CK Require Import Exec.
+From CK Require Import Struct.
+From CK Require Import RG.
+From CK Require Import RGProofs.
+Close Scope Qc_scope. Close Scope Q_scope. Close Scope Z_scope. Open Scope nat_scope.
+
+(* the executable validity predicate holds exactly when: roots cover all variables, every region is non-empty, every partition splits its region into non-empty pairwise-disjoint regions covering it *)
+Theorem C16_valid_spec :
+  forall g : rg, rg_valid g = true <-> Valid g.
+Proof. exact rg_valid_spec. Qed.
+Print Assumptions C16_valid_spec.
+
+(* the structured-decomposability flag holds exactly when partitions of the same scope split it into the same set of sub-scopes *)
+Theorem C16_sd_flag :
+  forall g : rg,
+         rg_sd g = true <->
+         (forall p q : nat * list nat,
+          In p (parts g) ->
+          In q (parts g) ->
+          set_eq (rscope g (fst p)) (rscope g (fst q)) ->
+          same_split (map (rscope g) (snd p)) (map (rscope g) (snd q))).
+Proof. exact rg_sd_spec. Qed.
+Print Assumptions C16_sd_flag.
+
+(* the fully-factorised region graph is valid, structured-decomposable and over variables 0..n-1, for every n and number of repetitions *)
+Theorem C16_fully_factorized :
+  forall n reps : nat,
+         1 <= n ->
+         1 <= reps ->
+         rg_valid (ff_rg n reps) = true /\ rg_sd (ff_rg n reps) = true /\ rg_vars (ff_rg n reps) = seq 0 n.
+Proof. exact ff_valid. Qed.
+Print Assumptions C16_fully_factorized.
+
+(* the linear-tree region graph is valid and structured-decomposable over exactly the variables of its ordering, for every duplicate-free ordering *)
+Theorem C16_linear_tree :
+  forall ord : list nat,
+         NoDup ord ->
+         ord <> [] ->
+         rg_valid (linear_rg ord) = true /\
+         rg_sd (linear_rg ord) = true /\ (forall v : nat, In v (rg_vars (linear_rg ord)) <-> In v ord).
+Proof. exact linear_valid. Qed.
+Print Assumptions C16_linear_tree.
